@@ -25,7 +25,7 @@ fn mkinst(u) { var i = Inst.new(); i.a = [u, "a" + "x"]; i.b = (u, "b"); return 
 fn mkclo(x) { return || { return x; }; }
 fn getiter(v) { return v.iter; }
 fn drain_twice(it) { var n = 0; for x in it { n = n + 1; } churn(1); for x in it { n = n + 100; } churn(1); try { it.next(); n = n + 1000; } catch e { n = n + 10; } return n; }
-fn setfirst(v, x) { v[0] = x; churn(1); return [v[0], v.len()]; }
+fn setfirst(v, x) { v[0] = x; x = nil; churn(1); return [v[0], v.len()]; }
 fn getpush(v) { return v.push; }
 fn getsum(u) { return mkinst(u).sum; }
 #[constructor(new)] class CallHolder { }
